@@ -102,7 +102,9 @@ class RustBlockingAsyncAnalyzer(RustBaseAnalyzer):
         self._scan_for_blocking_calls(root, code, calls)
         return calls
 
-    def _scan_for_blocking_calls(self, node: Node, code: str, calls: list[BlockingCall]) -> None:
+    def _scan_for_blocking_calls(
+        self, node: Node, code: str, calls: list[BlockingCall], in_async: bool = False
+    ) -> None:
         """Recursively scan AST for blocking calls in async contexts.
 
         Finds call_expression nodes inside async functions and checks if they
@@ -112,14 +114,18 @@ class RustBlockingAsyncAnalyzer(RustBaseAnalyzer):
             node: Current tree-sitter node to inspect
             code: Original source code for context extraction
             calls: Accumulator list for detected calls
+            in_async: Whether an enclosing function is async (carried down: walking up the
+                parents of every call is quadratic or worse on long call chains)
         """
-        if node.type == "call_expression" and self._is_in_async_context(node):
+        if node.type == "function_item" and self.is_async_function(node):
+            in_async = True
+        if in_async and node.type == "call_expression":
             blocking_call = self._check_blocking_call(node, code)
             if blocking_call is not None:
                 calls.append(blocking_call)
 
         for child in node.children:
-            self._scan_for_blocking_calls(child, code, calls)
+            self._scan_for_blocking_calls(child, code, calls, in_async)
 
     def _is_in_async_context(self, node: Node) -> bool:
         """Check if node is inside an async function body.
